@@ -139,7 +139,7 @@ def run(pid, tier, programs=None, phases=()):
     known = [k for k in C.load_known().get("findings", []) if k.get("property") == pid]
     with C.Lock():
         lean_ok, names = C.lean_phase(res, pid, gen_fn=regen_for(pid), thorough_modules=["Cuckoo.Model.Proto"],
-                                      extra_props={"C01": ["C01Conc", "C01Red", "C01Sync", "C01Lin"], "C03": ["C01Red", "C01Sync", "C03Frame"], "C04": ["C04Live", "C01Sync"],
+                                      extra_props={"C01": ["C01Conc", "C01Red", "C01Sync", "C01Lin", "C01Sched"], "C03": ["C01Red", "C01Sync", "C03Frame"], "C04": ["C04Live", "C01Sync"],
                                                    "C06": ["C06Conc", "C01Red", "C01Sync"]}.get(pid, []))
     if pid == "C03":
         tsan_runs(res, tier, known)
